@@ -139,6 +139,15 @@ func c20Run(in c20In) (V, Verdict) {
 		_ = pc.Close()
 		_ = a1.Close()
 		_ = a2.Close()
+		// a read loop that is still running now fails its read; wait for it to
+		// exit, otherwise it would reach its yield point during a later case and
+		// be taken for that case's read loop (GracefulClose waits for readLoopActive)
+		waited := make(chan struct{})
+		go func() { _ = d.GracefulClose(); close(waited) }()
+		select {
+		case <-waited:
+		case <-time.After(5 * time.Second):
+		}
 	}
 	defer cleanup()
 
